@@ -1,10 +1,13 @@
 /-
 M for C15 — faithful model of libcoap's OSCORE replay protection and sender sequence numbers.  Core Lean only.
 
-Transcribed from (tree after the five `fix:` commits listed in KNOWN_FINDINGS.txt / design/C15.md):
+Transcribed from (tree after the seven `fix:` commits listed in KNOWN_FINDINGS.txt / design/C15.md):
   src/oscore/oscore.c        oscore_validate_sender_seq, oscore_roll_back_seq, oscore_increment_sender_seq
   src/coap_oscore.c          coap_oscore_decrypt_pdu: request path (8.2 step 3 check, roll back on decryption failure,
-                             Appendix B.1.2 Echo trap);  coap_oscore_new_pdu_encrypted_lkd: save watermark
+                             Appendix B.1.2 Echo trap) and response path (8.4: response with / without its own Partial
+                             IV, validation gated on initial_state, SEQ_MAX check, guarded last_seq assignment, roll
+                             back / restore on decryption failure), both on the same recipient context;
+                             coap_oscore_new_pdu_encrypted_lkd: save watermark
   src/oscore/oscore_context.c  oscore_derive_ctx (seq / next_seq from start_seq_num and ssn_freq), oscore_add_recipient
 
 Every quantity is a `Nat`; a C narrowing is `% 2^64` where it happens.  A 64-bit shift is `shl64`, which has no value
@@ -135,6 +138,60 @@ def run (cfg : Cfg) : Recip → List Ev → List (Verdict × Recip)
   | r, ev :: evs =>
     let x := recv cfg r ev
     (x.2, x.1) :: run cfg x.1 evs
+
+/-! ### Responses on the same recipient context
+
+An endpoint that is client and server on one security context receives, from the same peer, requests *and* responses
+(Observe notifications) that carry the peer's sender sequence number as their own Partial IV.  Both go through the same
+`oscore_recipient_ctx_t` (`association->recipient_ctx` is the context the request was sent on). -/
+
+/-- One protected response as the recipient sees it: does the AEAD verify, and the Partial IV of its OSCORE option
+(`none`: the response uses the nonce of the request, `cose->partial_iv.length == 0`). -/
+structure Rsp where
+  authentic : Bool
+  piv : Option Nat
+  deriving DecidableEq, Repr
+
+/-- Response path of `coap_oscore_decrypt_pdu` ("8.4 Step 4" … decryption), the association for the token exists.
+Verdicts: the decrypted PDU is returned (`acc`) or NULL without any answer (`drop`). -/
+def recvRsp (cfg : Cfg) (r : Recip) (m : Rsp) : Recip × Verdict :=
+  match m.piv with
+  | none =>
+    -- cose->partial_iv.length == 0: Partial IV and nonce of the request (association); the context is not touched
+    if !m.authentic then (r, .drop) else (r, .acc)
+  | some piv =>
+    -- prev_last_seq = rcp_ctx->last_seq;
+    let prevLast := r.last
+    -- if (rcp_ctx->initial_state == 0) { if (!oscore_validate_sender_seq()) goto error; seq_validated = 1; }
+    let validated := !r.init
+    match (if validated then validate cfg r piv else .ok r) with
+    | .ub => (r, .ub)
+    | .rej r1 => (r1, .drop)
+    | .ok r1 =>
+      -- if (rcp_ctx->last_seq >= OSCORE_SEQ_MAX) goto error;      (no roll back on this path)
+      if r1.last ≥ SEQ_MAX then (r1, .drop)
+      else
+        -- if (last_seq > rcp_ctx->last_seq) rcp_ctx->last_seq = last_seq;
+        let r2 := if piv > r1.last then { r1 with last := piv } else r1
+        -- 8.4 step 5: decrypt; on failure: if (seq_validated) roll back; else if (rcvd_piv.length) last_seq = prev_last_seq
+        if !m.authentic then
+          ((if validated then rollback r2 else { r2 with last := prevLast }), .drop)
+        else (r2, .acc)
+
+/-- A protected message from the peer: a request or a response. -/
+inductive Msg where
+  | req (e : Ev)
+  | rsp (x : Rsp)
+  deriving DecidableEq, Repr
+
+def Msg.authentic : Msg → Bool
+  | .req e => e.authentic
+  | .rsp x => x.authentic
+
+/-- `coap_oscore_decrypt_pdu` on one incoming message (`COAP_PDU_IS_REQUEST` selects the branch). -/
+def step (cfg : Cfg) (r : Recip) : Msg → Recip × Verdict
+  | .req e => recv cfg r e
+  | .rsp x => recvRsp cfg r x
 
 /-! ### Sender side -/
 
